@@ -413,7 +413,7 @@ func (b *Builder) findRegistryPackageSource(ctx context.Context, sourceAddr sour
 
 		var versionDeprecation *ModulePackageVersionDeprecation
 		for _, v := range availablePackageInfos {
-			if selectedVersion.Same(v.Version) {
+			if selectedVersion == v.Version {
 				versionDeprecation = v.Deprecation
 				break
 			}
